@@ -141,19 +141,18 @@ func (s *Service) onFindNode(ctx context.Context, peer p2p.Peer, stream p2p.Stre
 	if req.Limit > maxPeersLimit {
 		req.Limit = maxPeersLimit
 	}
+	if req.Limit < 0 {
+		req.Limit = 0
+	}
 	resp := &pb.Peers{}
 
 	target := boson.NewAddress(req.Target)
 	skip := []boson.Address{peer.Address}
 
-	var (
-		limitConn  = 1
-		limitKnown = 1
-	)
-	if req.Limit > 2 {
-		limitKnown = int(req.Limit / 2)
-		limitConn = int(req.Limit) - limitKnown
-	}
+	// split the limit between connected and known peers; the two parts never
+	// add up to more than what was requested (limit 1: one connected peer, limit 0: none)
+	limitKnown := int(req.Limit / 2)
+	limitConn := int(req.Limit) - limitKnown
 
 	addrFunc := func(address boson.Address, u uint8) (stop, jumpToNext bool, err error) {
 		if address.MemberOf(skip) {
